@@ -138,6 +138,9 @@ def point_negate(
         -p
     """
     # https://crypto.stanford.edu/pbc/notes/elliptic/explicit.html
+    if p is None:
+        # the point at infinity is its own inverse
+        return None
     x, y = p
     return (x, sub_mod_p(0, y))
 
